@@ -65,7 +65,8 @@ func H_C04_fee() {
 	l.Set(core.ModuleAddress, "uusdc", A) // ICS-20 has just credited A
 
 	maxN := verif.Bound("entries")
-	n := verif.Choose("n", maxN+1)
+	minN := verif.Bound("minEntries")
+	n := minN + verif.Choose("n", maxN-minN+1)
 	infos := make([]*actiontypes.FeeInfo, 0, 8)
 	kind := make([]int, 8)
 	bps := make([]uint32, 8)
@@ -76,7 +77,11 @@ func H_C04_fee() {
 	for i := 0; i < n; i++ {
 		fi := &actiontypes.FeeInfo{}
 		fi.Recipient, rcpOK[i], rcp[i] = feeRecipient(verif.Choose("rcp", verif.Bound("rcpKinds")))
-		kind[i] = verif.Choose("kind", verif.Bound("feeKinds"))
+		if i > 0 && verif.Bound("laterFixed") > 0 {
+			kind[i] = kFixed // (profile for longer lists: any kind first, fixed amounts after it)
+		} else {
+			kind[i] = verif.Choose("kind", verif.Bound("feeKinds"))
+		}
 		switch kind[i] {
 		case kBps:
 			bps[i] = verif.Uint32("bps")
